@@ -46,6 +46,23 @@ A second kind of operation drives the *collections* of a node with several PDOs:
 The steps of node A are: <pre>, then the per-PDO steps (<how>) in the order listed, then <save>.
 Output: A=<outcome> mapsA=<key>:<attributes>:<subscriptions>|... log=<all SDO transactions>
 dev=<image>|... B=<outcome> mapsB=... logB=...
+
+A third kind makes the network's subscriber table *before* the call an input:
+
+  subs <nodeid> <X><act> <objs> <prior> <pdo> [<pdo> ...]        (<pdo> as above, how = u | a)
+
+  prior    "-" or  <cob>:<tok>,<tok>;<cob>:;...   what Network.subscribers holds before, built through
+           Network.subscribe / unsubscribe / PdoMap.subscribe:
+             A<k>       an application callback
+             L<k>       on_message of TPDO k of a second node object on the same network (PDO linking)
+             S<R|T><n>  on_message of this node's own map (an earlier subscription)
+             no token   the id was subscribed and unsubscribed again (key with an empty list)
+  X        m | r | t | c | p (as under save), or 4: BaseNode402.setup_pdos(upload=False)
+  act      s: subscribe()      r: read()      v: save()       (on the maps / collections of X)
+
+Node A sets the attributes of the `a` PDOs, then makes the call.  Output: A=<outcome>
+mapsA=<key>:<attributes>|... tab=<cob>:<names in list order>;... (for every COB-ID named in the
+operation; only the callbacks the operation knows by name) log=<SDO transactions>.
 """
 import logging
 import random
@@ -58,7 +75,7 @@ from canopen.sdo import SdoAbortedError
 
 ID = "C09"
 PROOF_MODULES = ["CanopenProofs.C09", "CanopenProofs.C09Coll"]
-GENERATED = ["PdoConfig"]
+GENERATED = ["PdoConfig", "Network"]
 THEOREMS = [
     "Canopen.C09.save_order",
     "Canopen.C09.save_order_any_device",
@@ -74,6 +91,8 @@ THEOREMS = [
     "Canopen.C09.save_all_strict_device",
     "Canopen.C09.read_all_back",
     "Canopen.C09.pdo_maps_order",
+    "Canopen.C09.subscribe_independent_of_table",
+    "Canopen.C09.collection_subscribe",
 ]
 FINGERPRINT = [
     "canopen.pdo.base:PdoMap.save",
@@ -86,6 +105,8 @@ FINGERPRINT = [
     "canopen.pdo.base:PdoMaps.__init__",
     "canopen.pdo.base:PdoBase.read",
     "canopen.pdo.base:PdoBase.save",
+    "canopen.pdo.base:PdoBase.subscribe",
+    "canopen.network:Network.subscribe",
     "canopen.pdo:RPDO.__init__",
     "canopen.pdo:TPDO.__init__",
     "canopen.pdo:PDO.__init__",
@@ -99,6 +120,8 @@ TRUSTED = [
     "Spec/StrictPdoDevice.lean: my reading of CiA 301 §7.5.2.35-38 (PDO communication and mapping "
     "parameters, re-mapping procedure); written twice (Lean, Python peer in this module) and "
     "compared by the correspondence run",
+    "Network.subscribe / unsubscribe are the C10 model (Net/Network.lean), tied to the code by C10's own "
+    "correspondence run and here by the `subs` operations",
     "the SDO transport (SdoClient <-> server) is abstracted to (index, sub, size, value) "
     "transactions; the typed accessors are covered by C01-C04",
     "the PDO parameter entries of the dictionary have their CiA 301 types (UNSIGNED32 COB-ID and "
@@ -125,7 +148,11 @@ RULE = ("ops `run …`: COB-IDs over 11/29-bit boundaries, all 256 transmission 
         "from the device / read from the dictionary, optionally a collection read first, saved "
         "through the maps, node.rpdo, node.tpdo, both, node.pdo or load_configuration, read back "
         "into a fresh node through the same five ways, plus write/read faults and one PDO of the "
-        "collection outside the domain; non-trivial = save and read-back both completed")
+        "collection outside the domain; ops `subs …`: the subscriber table before the call as an "
+        "input (no entry / empty list / application listener / map of a second node object on the "
+        "same COB-ID / the map itself), entry points map|rpdo|tpdo|both|pdo x subscribe()|read()|"
+        "save() and setup_pdos(upload=False); non-trivial = save and read-back both completed "
+        "(subs: the call completed)")
 
 logging.getLogger("canopen").setLevel(logging.CRITICAL + 1)
 
@@ -650,7 +677,171 @@ def run_coll(op):
     return f"{a_txt} log={log_a} dev={img} {b_txt} logB={log_b}"
 
 
+# ------------------------------------------------- subscription operations (`subs ...`)
+MASK29 = 0x1FFFFFFF
+
+
+class SubsOp(CollOp):
+    """subs <nodeid> <X><act> <objs> <prior> <pdo> [<pdo> ...]"""
+
+    def __init__(self, op):
+        a = op.split(" ")
+        if a[0] != "subs" or len(a) < 6 or len(a[2]) != 2:
+            raise ValueError("bad-op")
+        self.nid = int(a[1])
+        self.x, self.act = a[2][0], a[2][1]
+        if self.x not in COLLS + ("m", "4") or self.act not in "srv" or (self.x == "4" and self.act != "s"):
+            raise ValueError("bad-op")
+        self.pre, self.save, self.read = "-", self.x, self.x
+        self.objsA = self.objsB = Op._objs(a[3])
+        self.wf = self.rf = None
+        self.maps = [MapOp(t, self) for t in a[5:]]
+        if len({m.key for m in self.maps}) != len(self.maps) or any(m.how not in "ua" for m in self.maps):
+            raise ValueError("bad-op")
+        self.prior = []
+        for e in lst(a[4], ";"):
+            cob, _, toks = e.partition(":")
+            toks = toks.split(",") if toks else []
+            for t in toks:
+                if not (t[0] in "AL" and t[1:].isdigit()) and not (t[0] == "S" and t[1] in "RT" and t[2:].isdigit()):
+                    raise ValueError("bad-op")
+            self.prior.append((int(cob), toks))
+
+    def ids(self):
+        """the CAN ids whose subscriber lists are shown"""
+        s = {cob for cob, _ in self.prior}
+        s |= {o.cob for o in self.maps if o.cob is not None}
+        s |= {o.dev[0] & MASK29 for o in self.maps}
+        return sorted(s)
+
+    def visited_maps(self):
+        return self.visited("p" if self.x == "4" else self.x)
+
+
+def other_od():
+    d = od.ObjectDictionary()
+    for k in range(4):
+        rec = od.ODRecord(f"TPDO{k + 1} communication parameter", 0x1800 + k)
+        for sub in (0, 1, 2):
+            v = od.ODVariable(f"com{sub}", 0x1800 + k, sub)
+            v.data_type = COM_TYPE.get(sub, od.UNSIGNED8)
+            rec.add_member(v)
+        d.add_object(rec)
+        arr = od.ODArray(f"TPDO{k + 1} mapping parameter", 0x1A00 + k)
+        for sub in (0, 1):
+            v = od.ODVariable(f"map{sub}", 0x1A00 + k, sub)
+            v.data_type = od.UNSIGNED8 if sub == 0 else od.UNSIGNED32
+            arr.add_member(v)
+        d.add_object(arr)
+    return d
+
+
+def run_subs(op):
+    try:
+        c = SubsOp(op)
+    except Exception:
+        return "bad-op"
+    devs = [StrictPdoDevice(o.com_idx, o.map_idx, *o.dev, o.entries, o.mappable) for o in c.maps]
+    server = SdoServer(c.nid, MultiPdoDevice(devs), None, None)
+    try:
+        if c.x == "4":
+            from canopen.profiles.p402 import BaseNode402
+            node = BaseNode402(c.nid, build_od_coll(c, c.objsA))
+        else:
+            node = canopen.RemoteNode(c.nid, build_od_coll(c, c.objsA))
+        node.sdo.RESPONSE_TIMEOUT = 0.001
+        net = FakeNetwork(server)
+        net.add_node(node)
+        pms = [(node.tpdo if o.dir == "T" else node.rpdo)[o.n] for o in c.maps]
+    except (KeyError, IndexError):
+        return "no-slot"
+    # ---- the subscriber table before the call, built through the public API
+    named = []                       # (callback, name)
+    state = {"other": None}
+
+    def cb_of(tok, cob):
+        for cb, name in named:
+            if name == tok:
+                if tok[0] == "L":    # the other node's map now (also) listens on this COB-ID
+                    cb.__self__.cob_id = cob
+                return cb
+        if tok[0] == "A":
+            def listener(can_id, data, timestamp):
+                pass
+            cb = listener
+        elif tok[0] == "L":          # PDO linking: a map of another node object on the same id
+            if state["other"] is None:
+                state["other"] = canopen.RemoteNode(c.nid % 127 + 1, other_od())
+                net.add_node(state["other"])
+            pm = state["other"].tpdo[int(tok[1:])]
+            pm.cob_id, pm.enabled = cob, True
+            cb = pm.on_message
+        else:
+            cb = pms[[o.key for o in c.maps].index(tok[1:])].on_message
+        named.append((cb, tok))
+        return cb
+
+    try:
+        for cob, toks in c.prior:
+            if not toks:             # subscribed and unsubscribed again: the key stays
+                def gone(can_id, data, timestamp):
+                    pass
+                net.subscribe(cob, gone)
+                net.unsubscribe(cob, gone)
+            for t in toks:
+                cb = cb_of(t, cob)
+                if t[0] == "L":
+                    cb.__self__.subscribe()          # the library's own PdoMap.subscribe
+                else:
+                    net.subscribe(cob, cb)
+    except (KeyError, ValueError, IndexError):
+        return "bad-op"
+    for o, pm in zip(c.maps, pms):
+        if not any(name == "S" + o.key for _, name in named):
+            named.append((pm.on_message, "S" + o.key))
+
+    def phase():
+        for o, pm in zip(c.maps, pms):
+            if o.how == "a":
+                set_attributes(o, pm)
+        if c.x == "4":
+            node.setup_pdos(upload=False)
+        elif c.act == "s":
+            call_on(node, c, pms, c.x, lambda q: q.subscribe())
+        elif c.act == "r":
+            call_on(node, c, pms, c.x, lambda q: q.read())
+        else:
+            call_on(node, c, pms, c.x, lambda q: q.save())
+
+    ra = outcome(phase)
+    cfgs = "|".join(f"{o.key}:{show_cfg(pm)}" for o, pm in zip(c.maps, pms))
+    a_txt = f"A=ok mapsA={cfgs}" if ra == "ok" else f"A={ra} mapsA=-"
+
+    def name_of(cb):
+        for x, name in named:
+            if x == cb:
+                return name
+        return None
+
+    rows = []
+    for i in c.ids():          # the callbacks this operation knows by name (not the node's own services)
+        rows.append(f"{i}:" + ",".join(n for n in (name_of(cb) for cb in net.subscribers.get(i, [])) if n))
+    log_a = ",".join(server.log) if server.log else "-"
+    return f"{a_txt} tab={';'.join(rows) if rows else '-'} log={log_a}"
+
+
+def canon_impl(op, out):
+    """for the comparison with the model only: the model does not say which subscriptions were
+    made before a call raised"""
+    if op.startswith("subs ") and out.startswith("A=") and not out.startswith("A=ok "):
+        f = out.split(" ")
+        return " ".join("tab=-" if t.startswith("tab=") else t for t in f)
+    return out
+
+
 def run_impl(op):
+    if op.startswith("subs "):
+        return run_subs(op)
     if op.startswith("coll "):
         return run_coll(op)
     try:
@@ -1032,7 +1223,81 @@ def oracle_coll(op, out):
     return None
 
 
+def parse_table(s):
+    t = {}
+    for e in lst(s, ";"):
+        cob, _, names = e.partition(":")
+        t[int(cob)] = names.split(",") if names else []
+    return t
+
+
+def oracle_subs(op, out):
+    try:
+        c = SubsOp(op)
+    except Exception:
+        return None
+    if out.startswith("HARNESS-RAISED"):
+        return "[harness] " + out
+    if out in ("no-slot", "bad-op"):
+        return None
+    f = parse_out(out)
+    after = parse_table(f["tab"])
+    prior = {}
+    for cob, toks in c.prior:
+        prior.setdefault(cob, [])
+        for t in toks:
+            if t not in prior[cob]:
+                prior[cob].append(t)
+    own = {"S" + o.key: o for o in c.maps}
+    # ---- whatever else happened: what was subscribed before is still there, in the same order,
+    #      and nothing but this node's maps was added
+    for cob, before in prior.items():
+        got = after.get(cob, [])
+        if got[:len(before)] != before:
+            return (f"[foreign] subscribers of {cob:#x} were {before} before the call and are "
+                    f"{got} after it: an earlier subscription was lost")
+    for cob, got in after.items():
+        for name in (got or [])[len(prior.get(cob, [])):]:
+            if name not in own:
+                return f"[foreign] {name} was subscribed to {cob:#x} by the call"
+    if f["A"] != "ok":
+        return None
+    # ---- the configuration each map holds when it is asked to subscribe
+    visited = c.visited_maps()
+    for o in c.maps:
+        if c.act == "r" and o in visited:
+            cfg = expected_source_cfg(view(o, src="d"))
+            if cfg is None:
+                return None                   # the read should not have completed; not judged here
+        elif o.how == "a":
+            cfg = expected_source_cfg(view(o, src="a"))
+            if c.act == "v" and o in visited and not in_domain(view(o, src="a"), cfg):
+                return None
+        else:
+            cfg = None
+        o.exp = cfg
+    for o in c.maps:
+        name = "S" + o.key
+        want_cob = None
+        if o in visited and o.exp is not None and o.exp["enabled"] and o.exp["cob"] is not None:
+            want_cob = o.exp["cob"]
+        for cob in c.ids():
+            had = prior.get(cob, []).count(name)
+            n = (after.get(cob) or []).count(name)
+            if cob == want_cob:
+                if n != 1:
+                    return (f"[subscribe] {o.key} is enabled with COB-ID {cob:#x} but its on_message is "
+                            f"{n} times among the subscribers of that id (before the call: "
+                            f"{prior.get(cob, 'no entry')})")
+            elif n != had:
+                return (f"[subscribe] {o.key} (enabled={bool(o.exp and o.exp['enabled'])}, COB-ID "
+                        f"{o.exp['cob'] if o.exp else None}) was subscribed to {cob:#x} by the call")
+    return None
+
+
 def oracle(op, out):
+    if op.startswith("subs "):
+        return oracle_subs(op, out)
     if op.startswith("coll "):
         return oracle_coll(op, out)
     try:
@@ -1134,12 +1399,14 @@ def oracle(op, out):
 def signature(op, what):
     tag = what[1:what.index("]")] if what.startswith("[") and "]" in what else "other"
     a = op.split(" ")
-    if a[0] == "coll":
-        return f"{tag}:coll"
+    if a[0] in ("coll", "subs"):
+        return f"{tag}:{a[0]}"
     return f"{tag}:{a[4] if len(a) > 4 else '?'}"
 
 
 def nontrivial(op, out):
+    if op.startswith("subs "):
+        return out.startswith("A=ok ")
     return (" A=ok " in out or out.startswith("A=ok ")) and " B=ok " in out
 
 
@@ -1150,6 +1417,9 @@ def classify(op, out):
     f = parse_out(out)
     ka = f.get("A", "?").split(":")[0]
     kb = f.get("B", "?").split(":")[0]
+    if a[0] == "subs":
+        busy = "busy" if a[4] != "-" else "empty"
+        return f"subs {a[2]} table={busy} A={ka}"
     if a[0] == "coll":
         try:
             c = CollOp(op)
@@ -1193,8 +1463,34 @@ def shrink_coll(a):
                 yield " ".join(a[:9] + maps[:i] + ["~".join(g)] + maps[i + 1:])
 
 
+def shrink_subs(a):
+    maps = a[5:]
+    if len(maps) > 1:
+        for i in range(len(maps)):
+            yield " ".join(a[:5] + maps[:i] + maps[i + 1:])
+    pr = lst(a[4], ";")
+    for i in range(len(pr)):
+        yield " ".join(a[:4] + [";".join(pr[:i] + pr[i + 1:]) or "-"] + maps)
+    for i, e in enumerate(pr):
+        cob, _, toks = e.partition(":")
+        toks = toks.split(",") if toks else []
+        for j in range(len(toks)):
+            e2 = cob + ":" + ",".join(toks[:j] + toks[j + 1:])
+            yield " ".join(a[:4] + [";".join(pr[:i] + [e2] + pr[i + 1:])] + maps)
+    for i, tok in enumerate(maps):
+        f = tok.split("~")
+        m = lst(f[4], ";")
+        if m and f[2] == "a":
+            g = list(f)
+            g[4] = ";".join(m[:-1]) or "-"
+            yield " ".join(a[:5] + maps[:i] + ["~".join(g)] + maps[i + 1:])
+
+
 def shrink_candidates(op):
     a = op.split(" ")
+    if a[0] == "subs":
+        yield from shrink_subs(a)
+        return
     if a[0] == "coll":
         yield from shrink_coll(a)
         return
@@ -1508,10 +1804,81 @@ def gen_coll(tier, rng):
                       tweak=tweak, drop_b=rng.random() < 0.2)
 
 
+def subs_op(rng, keys, hows, entry, crowd):
+    """crowd(rng, cob, key) -> tokens already subscribed to the COB-ID a map will use (or None for
+    'no entry'); the table also gets entries on ids no map uses"""
+    nid = rng.choice([1, 5, 127]) if rng.random() < 0.6 else rng.randrange(1, 128)
+    toks, objs, prior = [], [], []
+    seen = set()
+    for (d, n), how in zip(keys, hows):
+        sc = Scn(rng, dir=d, n=n, nid=nid)
+        if rng.random() < 0.75:
+            sc.enabled = True
+        a = sc.render().split(" ")
+        dev = a[12].split(",")
+        if entry[1] == "r" and rng.random() < 0.7:      # what counts for read() is the device's word
+            dev[0] = str(int(dev[0]) & ~NV & 0xFFFFFFFF)
+            a[12] = ",".join(dev)
+        objs.append(Op._objs(a[10]))
+        toks.append("~".join([d, str(n), how, a[6], a[7], a[8], a[9], a[12], a[13], a[14]]))
+        used = (int(dev[0]) & MASK29) if entry[1] == "r" else sc.cob
+        if used is not None and used not in seen:
+            seen.add(used)
+            t = crowd(rng, used, f"{d}{n}")
+            if t is not None:
+                prior.append(f"{used}:{','.join(t)}")
+    for _ in range(rng.randrange(0, 3)):                # entries on ids no map uses
+        cob = rng.choice([0x80, 0x100, 0x701, 0x7E5, rng.getrandbits(11), rng.getrandbits(29)])
+        if cob not in seen:
+            seen.add(cob)
+            prior.append(f"{cob}:{','.join(rng.sample(['A1', 'A2', 'L1', 'L3'], rng.randrange(0, 3)))}")
+    rng.shuffle(prior)
+    return " ".join(["subs", str(nid), entry, fmt_objs(merge_objs(objs)), ";".join(prior) or "-"] + toks)
+
+
+def crowd_any(rng, cob, key):
+    r = rng.randrange(8)
+    if r == 0:
+        return None                                      # nobody ever subscribed to that id
+    if r == 1:
+        return []                                        # subscribed and unsubscribed again
+    if r == 2:
+        return ["A1"]                                    # an application listener
+    if r == 3:
+        return ["L" + str(rng.randrange(1, 5))]          # PDO linking
+    if r == 4:
+        return ["S" + key]                               # the map itself, from an earlier call
+    if r == 5:
+        return rng.sample(["A1", "A2", "L1", "L2", "S" + key], 3)
+    if r == 6:
+        return ["A1", "S" + key, "L2"]
+    return ["L1", "A3"]
+
+
+ENTRIES = [x + "s" for x in "mrtcp4"] + [x + "r" for x in "mrtcp"] + [x + "v" for x in "mrtcp"]
+
+
+def gen_subs(tier, rng):
+    k = 1 if tier == "quick" else 8
+    for entry in ENTRIES:                                # every entry point x every kind of prior table
+        for kind in range(8):
+            for _ in range(k):
+                keys = rand_keys(rng, rng.randrange(1, 4))
+                hows = ["u" if entry[1] == "r" and rng.random() < 0.7 else "a" for _ in keys]
+                forced = lambda r, cob, key, kind=kind: crowd_any(random.Random(kind), cob, key)  # noqa: E731
+                yield subs_op(rng, keys, hows, entry, forced if rng.random() < 0.7 else crowd_any)
+    for _ in range(60 * k):                              # free mix, some maps untouched / disabled
+        entry = rng.choice(ENTRIES)
+        keys = rand_keys(rng, rng.randrange(1, 5))
+        yield subs_op(rng, keys, [rng.choice("uaa") for _ in keys], entry, crowd_any)
+
+
 def gen_ops(tier, rng):
     yield from gen_single(tier, rng)
-    # an own stream for the collection operations, so that the single-PDO stream of a seed stays as it was
-    yield from gen_coll(tier, random.Random(rng.getrandbits(64)))
+    # own streams for the collection / subscription operations, so that the streams of a seed stay as they were
+    r2 = random.Random(rng.getrandbits(64))
+    yield from gen_coll(tier, r2)
+    yield from gen_subs(tier, random.Random(r2.getrandbits(64)))
 
 
 def gen_single(tier, rng):
@@ -1664,6 +2031,18 @@ CORPUS = [
     "~2147484549,1,0,0,-,0,0~0,0,0,0~536936480,537002000,537067528 "
     "R~2~u~-,0,1,-,-,-,-~-~0:-:2;1:-:-;2:-:-~R/0:-:-;1:-:-~2147484421,255,-,-,-,0,0~0~- "
     "T~1~a~389,0,1,1,-,-,-~8195.0.8~0:-:5;1:-:-;2:-:-;3:-:-;5:-:-~A/0:-:-;1:-:-~389,1,0,0,-,1,0~537002000,0~537002000,537067528",
+    # PDO linking: RPDO1 of node 4 consumes COB-ID 183h, on which a map of another node object already
+    # listens; an application listener sits on 184h, 304h was subscribed and unsubscribed earlier; the
+    # set-up is known to match, so node.pdo.subscribe() is used (RPDO2 disabled)
+    "subs 4 ps 8193 387:L1;388:A1;772: "
+    "R~1~a~387,1,1,255,-,-,-~8193.0.16~0:-:2;1:-:-;2:-:-~A/0:-:-;1:-:-~387,255,-,-,-,1,0~536936464,0~536936464 "
+    "R~2~a~772,0,1,255,-,-,-~8193.0.16~0:-:2;1:-:-;2:-:-~A/0:-:-;1:-:-~2147484420,255,-,-,-,1,0~536936464,0~536936464 "
+    "T~1~a~388,1,1,255,-,-,-~8193.0.16~0:-:2;1:-:-;2:-:-~A/0:-:-;1:-:-~388,255,-,-,-,1,0~536936464,0~536936464",
+    # the same table, the maps read from the device (read() subscribes), TPDO1 already subscribed before
+    "subs 4 pr 8193 387:L1;388:A1,ST1;772: "
+    "R~1~u~-,0,1,-,-,-,-~-~0:-:2;1:-:-;2:-:-~A/0:-:-;1:-:-~387,255,-,-,-,1,0~536936464,0~536936464 "
+    "R~2~u~-,0,1,-,-,-,-~-~0:-:2;1:-:-;2:-:-~A/0:-:-;1:-:-~2147484420,255,-,-,-,1,0~536936464,0~536936464 "
+    "T~1~u~-,0,1,-,-,-,-~-~0:-:2;1:-:-;2:-:-~A/0:-:-;1:-:-~388,255,-,-,-,1,0~536936464,0~536936464",
 ]
 
 LEVEL_TEXT = ("Lean 4 theorems over all configurations (COB-ID < 2^29, flags, transmission type, optional "
@@ -1678,7 +2057,10 @@ LEVEL_TEXT = ("Lean 4 theorems over all configurations (COB-ID < 2^29, flags, tr
               "(RPDOs before TPDOs), a PDO whose COB-ID was never set gets no write and does not end the loop; a "
               "strict device with any number of distinct PDOs in any prior state accepts everything, ends with "
               "every configured PDO's encodings and every untouched PDO unchanged, and a fresh node reads the whole "
-              "collection back identically.  Model tied to the code by regenerated constants and a "
+              "collection back identically; subscriptions (read/save/PdoMap.subscribe/PdoBase.subscribe/setup_pdos) from "
+              "ANY prior Network.subscribers table (C10's model): an enabled map is among the subscribers of its "
+              "COB-ID exactly once, a disabled one is not added, earlier subscriptions stay in place and order.  "
+              "Model tied to the code by regenerated constants and a "
               "differential run through the real SdoClient against an independent Python strict device")
 LEVEL_NOTE = ("trusted: Lean kernel + propext/Classical.choice/Quot.sound; the strict device is my reading of CiA 301 "
               "(written twice); the SDO transport is abstracted to (index, sub, size, value) transactions; dictionary "
